@@ -2,7 +2,7 @@ import WebAuthnModel.Basic.Bytes
 import WebAuthnModel.Model.Tpm
 /-
   Programs over dependency oracles.  The repository's own logic is written in Lean; every call
-  into a dependency (crypto, x509, json, url, go-tpm, go-jose) is an `ask`; the ASN.1 values the
+  into a dependency (crypto, x509, json, go-tpm, go-jose) is an `ask`; `net/url` host extraction is modelled in Lean (`Model/Url`); the ASN.1 values the
   repository decodes itself with `encoding/asn1` (Keymaster key description, Apple nonce, AAGUID extension)
   are decoded in Lean (`Model/Asn1`, `Model/KeyDesc`).  Theorems
   quantify over every `Env`; the driver interprets the same program in IO, the Go harness
@@ -71,7 +71,6 @@ inductive Ask where
   | sha256 (data : Bytes)
   | hash (id : Nat) (data : Bytes)                       -- crypto.Hash(id); unavailable ⇒ none
   | clientData (raw : Bytes)                             -- json.Unmarshal into CollectedClientData
-  | urlHost (s : Bytes)                                  -- url.Parse(s) ok ⇒ some Hostname()
   | sigVerify (s : SigScheme) (hashId : Nat) (k : KeyMat) (msg sig : Bytes)
   | x509Parse (der : Bytes)
   | x509CheckSig (der : Bytes) (alg : Nat) (msg sig : Bytes)
